@@ -273,9 +273,9 @@ func (w *c44World) ops(explore bool) []c42Op {
 		seen[s] = true
 		ents = append(ents, ent{s, m})
 	}
-	if explore {
-		sort.Slice(ents, func(i, j int) bool { return ents[i].s < ents[j].s })
-	}
+	// always canonical (also in the continuation): several worker controllers may be active in the same
+	// settle (tick), so the capture order of their messages is not a deterministic function of the events
+	sort.SliceStable(ents, func(i, j int) bool { return ents[i].s < ents[j].s })
 	for _, e := range ents {
 		m := e.m
 		out = append(out, c42Op{label: "deliver " + e.s, run: func() { w.net.c42Remove(m); w.net.c42Deliver(m) }})
